@@ -21,11 +21,11 @@ type c13Peer struct {
 	Remote  string `json:"remote"`
 	Local   string `json:"local,omitempty"`
 	Passive bool   `json:"passive"`
-	State   string `json:"state"`           // fresh aborted-in opensent openconfirm est-in est-out est-collision held-down deleted readded
-	Hold0   bool   `json:"hold0,omitempty"` // the peer is configured with hold time 0
-	HD      string `json:"hd,omitempty"`    // held-down: state in which the protocol error is caused (default opensent)
+	State   string `json:"state"`             // fresh aborted-in opensent openconfirm est-in est-out est-collision held-down deleted readded
+	Hold0   bool   `json:"hold0,omitempty"`   // the peer is configured with hold time 0
+	HD      string `json:"hd,omitempty"`      // held-down: state in which the protocol error is caused (default opensent)
 	HDCode  uint8  `json:"hd_code,omitempty"` // held-down: 0 = corebgp sends the NOTIFICATION (bad marker); else the remote sends one with this code (never 6)
-	ArmD    int64  `json:"arm_d,omitempty"` // est-collision: delay of the peer manager at its collision schedule point
+	ArmD    int64  `json:"arm_d,omitempty"`   // est-collision: delay of the peer manager at its collision schedule point
 }
 
 type c13Case struct {
@@ -42,6 +42,10 @@ type c13Case struct {
 	Mapped bool    `json:"mapped,omitempty"`
 	Delays []int64 `json:"delays,omitempty"`
 	Gap2S  int     `json:"gap2_s,omitempty"` // held-down-2: seconds between the first and the second protocol error (default 61)
+	// DelRaceD > 0: the target peer is deleted while the probe and its twins arrive and its
+	// manager goroutine is held up (peer.loop busy-waits DelRaceD x 4 us): whichever comes
+	// first, no connection may be left open, and none that was to be refused gets a byte
+	DelRaceD int64 `json:"del_race_d,omitempty"`
 }
 
 func c13Spec(p c13Peer, i int) world.PeerSpec {
@@ -89,7 +93,7 @@ func c13Prop(t *testing.T, r *hx.Run) func(c c13Case) hx.Verdict {
 		if target >= 0 {
 			st = c.Peers[target].State
 		}
-		v := hx.Verdict{Class: fmt.Sprintf("admit=%v/%s/%s/twins=%v", admit, st, why, c.Twins > 0)}
+		v := hx.Verdict{Class: fmt.Sprintf("admit=%v/%s/%s/twins=%v/delrace=%v", admit, st, why, c.Twins > 0, c.DelRaceD > 0)}
 		if target >= 0 {
 			v.NT = fmt.Sprintf("%+v", c)
 		}
@@ -105,6 +109,10 @@ func c13Prop(t *testing.T, r *hx.Run) func(c c13Case) hx.Verdict {
 				if p.State == "est-collision" && len(delays) == 0 {
 					delays = []int64{0} // installs the schedule-point hook that Arm needs
 				}
+			}
+			delRace := c.DelRaceD > 0 && target >= 0 && c.Peers[target].State != "deleted" && !c.Closed
+			if delRace && len(delays) == 0 {
+				delays = []int64{0}
 			}
 			w, err := world.New("10.0.0.1", delays)
 			if err != nil {
@@ -295,10 +303,36 @@ func c13Prop(t *testing.T, r *hx.Run) func(c c13Case) hx.Verdict {
 			if c.Mapped {
 				connect = w.InboundMapped
 			}
+			if delRace {
+				w.Arm("peer.loop", 0, c.DelRaceD)
+			}
 			probe := connect(c.Src, c.Dst)
 			var twins []*memnet.Conn
 			for k := 0; k < c.Twins; k++ {
+				if delRace {
+					// the manager goroutine has dealt with the previous connection and
+					// dawdles at the top of its loop when the next one arrives
+					memnet.Spin(c.DelRaceD)
+				}
 				twins = append(twins, connect(c.Src, c.Dst))
+			}
+			if delRace {
+				memnet.Spin(c.DelRaceD)
+				tp := c13Spec(c.Peers[target], target)
+				w.Call("DeletePeer", tp.Remote, 10*time.Second, func() { w.Srv.DeletePeer(tp.RemoteAddr()) })
+				w.Settle()
+				for _, cn := range append([]*memnet.Conn{probe}, twins...) {
+					st := cn.Snapshot()
+					if !st.LocalClosed {
+						fail("left-open-by-deletion", "connection %d (%s -> %s) arrived while peer %s was being deleted and is still open afterwards (bytes=%d)", st.ID, c.Src, c.Dst, tp.Remote, len(st.Bytes()))
+						return
+					}
+					if !admit && len(st.Writes) != 0 {
+						fail("bytes-on-refused", "connection %s -> %s must be refused before and after the deletion of %s, corebgp wrote %d bytes on it", c.Src, c.Dst, tp.Remote, len(st.Bytes()))
+						return
+					}
+				}
+				return
 			}
 			w.Settle()
 			if len(twins) > 0 {
@@ -458,6 +492,10 @@ func genC13(rt *rapid.T) c13Case {
 		c.Dst = right
 	}
 	c.Mapped = rapid.IntRange(0, 4).Draw(rt, "mapped") == 0
+	if rapid.IntRange(0, 5).Draw(rt, "delrace") == 0 {
+		c.DelRaceD = pick[int64](rt, "delraced", 20, 80, 150)
+		c.Twins = max(c.Twins, 1)
+	}
 	if rapid.IntRange(0, 3).Draw(rt, "twins") == 0 {
 		c.Twins = rapid.IntRange(1, 3).Draw(rt, "ntwins")
 		if rapid.Bool().Draw(rt, "delays") {
